@@ -39,7 +39,8 @@ def texts(ctx):
     pick = short[: (250 if not ctx.thorough else 1500)]
     uni = ["".join(chr(rng.choice([rng.randrange(0x21, 0x7f), rng.randrange(0xa1, 0x250), rng.randrange(0x400, 0x500), 0x266a]))
                    for _ in range(rng.randrange(1, 12))) for _ in range(60)]
-    return ADVERSARIAL + pick + uni
+    from props import samples
+    return ADVERSARIAL + pick + uni + samples.rich_lines(rng, 150 if not ctx.thorough else 1500)
 
 
 def node_lists(lines, variant):
